@@ -131,6 +131,13 @@ def gen_cases(ctx):
     n = ctx.n(9600, 120000)
     for i in range(n):
         k = i % 6
+        if k == 3 and (i // 6) % 2 == 1:  # random neutral closed-shell molecule grown under standard valences (molgen)
+            from .. import molgen
+
+            smi = molgen.random_smiles(rng, n_heavy=(3, 14), p_double=0.3, p_triple=0.08, p_ring=0.5)
+            if smi:
+                yield {"kind": "chemical", "smiles": smi, "oseed": rng.randrange(1 << 30), "n_orders": 6 if ctx.tier == "quick" else 16, "source": "random-molecule"}
+                continue
         if k == 4:
             smi = random_chain(rng) if (i // 6) % 2 == 0 else random_ring(rng)
             if smi:
